@@ -503,8 +503,15 @@ class Collector(object):
   def exempted(self, fi, node, source, kind, chain):
     """True (and a site recorded) when (function, source) is an exempted
     construct: the analysis stops there, nothing is propagated."""
+    wide = source
+    if source.isidentifier():
+      # a local that merely names the exempted expression (`others = cover - {p}`)
+      defs = [x.value for x in walk_local(fi.node) if isinstance(x, ast.Assign) and
+              len(x.targets) == 1 and isinstance(x.targets[0], ast.Name) and x.targets[0].id == source]
+      if len(defs) == 1:
+        wide = source + ' = ' + norm(defs[0], 200)
     for i, ex in enumerate(self.exemptions):
-      if self._present_name(ex['fn']) == fi.fq and ex['source'] in source:
+      if self._present_name(ex['fn']) == fi.fq and ex['source'] in wide:
         self.exempt_hits[i] = self.exempt_hits.get(i, 0) + 1
         self.site(fi, node, source, kind, 'exempt', ex['reason'], chain)
         return True
